@@ -243,12 +243,15 @@ impl<OutL: ExchangeData, OutR: ExchangeData> BinaryStartReceiver<OutL, OutR> {
         let data = if self.first_message && (self.left.cached || self.right.cached) {
             debug_assert!(!self.left.cached || self.left.cache_full);
             debug_assert!(!self.right.cached || self.right.cache_full);
-            self.first_message = false;
-            if self.left.cached {
+            let first = if self.left.cached {
                 Side::Right(self.right.recv(timeout))
             } else {
                 Side::Left(self.left.recv(timeout))
-            }
+            };
+            // keep asking the other side first until it actually answers: a timeout tells nothing
+            // about whether a new iteration is starting
+            self.first_message = matches!(first, Side::Left(Err(_)) | Side::Right(Err(_)));
+            first
         } else if self.left.cached
             && self.left.cache_full
             && !self.left.cache_finished()
